@@ -187,3 +187,63 @@ for t in T3:
 add(H("table::verif::fault_count_and_flags", ["C09"],
       "single fault during count_free_clusters / read_fat_flags => Error::Io(device error)", FAULT_B, mode="path"))
 add(twin("table::verif::twin_fault_free_always_ok", ["C09"], "claims chain free succeeds at every fault position", "r.is_ok()", mode="path"))
+
+# ------------------------------------------------------------------ fs.rs
+GLUE = ("FileSystem value built directly (struct literal) over a windowed device: 8-entry FAT windows (2 copies), 512-byte "
+        "clusters, 6 data clusters; table contents / mirroring mode / hint / predecessor CONCRETE per harness, cached "
+        "counters and latches symbolic")
+add(
+    H("fs::verif::fsinfo_roundtrip", ["C04", "C05"],
+      "FsInfoSector::serialize puts signatures and counters at offsets 0/484/488/492/508, zero elsewhere; deserialize returns the same values, dirty=false",
+      "free count and hint any u32 (or unknown); 512-byte sector; unwind 514"),
+    H("fs::verif::fsinfo_parse_total", ["C07", "C05", "C20"],
+      "FsInfoSector::deserialize on arbitrary signature/counter words never panics, rejects iff a signature is wrong, drops reserved values; "
+      "validate_and_fix keeps free<=total and 2<=hint<=total+2 only",
+      "all 2^160 values of the five words x every total_clusters up to the FAT32 maximum"),
+    H("fs::verif::diskslice_mirror_write", ["C10", "C11"],
+      "DiskSlice::write issues exactly `mirrors` writes at begin+offset+i*size with the same payload, clipped to the slice; nothing when clipped to 0",
+      "begin <= 2^42, size <= 2^41, offset <= size, len <= 8, mirrors 1..=3, all symbolic"),
+    H("fs::verif::diskslice_read_seek_bounds", ["C11"],
+      "DiskSlice::seek (Start/Current/End, any i64) succeeds iff the target is in [0,size], else InvalidInput and no move; read stays inside [begin, begin+size]",
+      "begin,size <= 2^42, any offset, any seek argument, read len <= 4"),
+    H("fs::verif::fat_slice_select", ["C08", "C10"],
+      "one table write reaches all `fats` copies starting at the first FAT when mirroring is on, and only copy (flags & 0xF) when off",
+      "symbolic BPB (sector size 512|4096, fats 1..=3, any sectors_per_fat / reserved sectors within the 32-bit range, any flags with active < fats)"),
+    H("fs::verif::set_dirty_step", ["C12", "C11", "C13"],
+      "set_dirty_flag: at most one 1-byte write at 0x25/0x41; value = mount byte with dirty bit as requested, no mount-time bit cleared; no write when unchanged",
+      "all three widths, every mount status byte, every consistent current state, dirty requested true/false"),
+    H("fs::verif::unmount_restores_status", ["C12"],
+      "unmount after modifications writes back exactly the mount-time status byte (nothing if it was dirty at mount)",
+      "all three widths, every mount status byte"),
+    H("fs::verif::adapter_write_sets_dirty", ["C12"],
+      "a non-empty write through FsIoAdapter (FAT / fixed-root updates) leaves the on-disk dirty bit set at return; an empty one changes nothing",
+      "all widths, every mount byte, any position, len <= 4"),
+    H("fs::verif::read_status_flags_reports_dirty", ["C12", "C13"],
+      "read_status_flags = boot-sector dirty bit OR FAT16/32 entry-1 clean-shutdown bit clear; issues no write",
+      "symbolic 32-byte FAT window, every status byte, all widths"),
+    H("fs::verif::fsinfo_flush_region", ["C05", "C04", "C11", "C13"],
+      "flush_fs_info: FAT32 and dirty => 512 bytes at fs_info_sector*bps carrying the cached count and hint (witness byte over the 8 counter bytes), latch cleared; "
+      "otherwise no write at all (never on FAT12/16)",
+      "all widths, sector size 512|4096, any fs_info_sector in the reserved area, symbolic cached values"),
+    H("fs::verif::unmount_readonly_session_writes_nothing", ["C13"],
+      "with FS-info clean and the status byte as at mount, unmount issues no write and keeps that state",
+      "all widths, every mount status byte (clean or dirty), symbolic cached counters"),
+    twin("fs::verif::twin_unmount_never_writes", ["C13", "C12"], "claims unmount never writes even after a modification", "total_writes == 0"),
+    H("fs::verif::fs_offset_from_cluster", ["C11", "C20"],
+      "FileSystem::offset_from_cluster / bytes_from_clusters equal the u64 reference for every accepted geometry and cluster; the cluster ends inside the volume",
+      "every BPB accepted by validate x every valid cluster (covers offsets >= 1 TiB and the last cluster)"),
+)
+for t in T3:
+    for c in ("mirror_zero", "mirror", "active0_zero", "active1", "hint2", "hint_wrap", "hint_end", "full"):
+        add(H("fs::verif::fs_alloc%s_%s" % (t, c), ["C05", "C10", "C11", "C12"],
+              "FileSystem::alloc_cluster: cached count stays exact (or unknown), hint = c+1 in [2,total+2], copies identical / inactive copy untouched, "
+              "zeroing covers exactly the new cluster, only other write is the 1-byte status update, dirty set; full => NotEnoughSpace and nothing changes",
+              GLUE + "; case " + c))
+    for c in ("free%s_chain", "free%s_single", "truncate%s_head", "truncate%s_mid", "truncate%s_tail"):
+        add(H("fs::verif::fs_" + c % t, ["C05", "C10", "C12"],
+              "free_cluster_chain / truncate_cluster_chain: table count grows by exactly the freed clusters, cached count follows, copies identical, only the status byte written elsewhere",
+              GLUE))
+    for c in ("some_free", "full"):
+        add(H("fs::verif::stats%s_%s" % (t, c), ["C05", "C13"],
+              "stats(): cached count returned without touching the device; unknown => recount == zero entries of the table, cached; never writes, never sets dirty",
+              GLUE))
